@@ -220,8 +220,18 @@ func TestC12CrashPoints(t *testing.T) {
 	}
 	allExhaustive := true
 	var totalInst, totalHit int
+	budget := fshelper.NewBudget(45*time.Second, 1)
+	cases := 0
 	rapid.Check(t, func(t *rapid.T) {
 		w := genWorkload(t)
+		order := rapid.Uint64().Draw(t, "pointOrder")
+		if cases > 0 && budget.Exceeded() {
+			// the time budget of this run is used up: later workloads are not enumerated (reported, not a verdict)
+			rec.Label("workload-skipped-time-budget")
+			allExhaustive = false
+			return
+		}
+		cases++
 		objs := w.spec.Universe()
 		desc := w.String()
 
@@ -295,50 +305,91 @@ func TestC12CrashPoints(t *testing.T) {
 				other[e.Name][e.Tid]++
 			}
 		}
+		// Crash points. Main-thread calls: ordinal pre+j addresses the j-th call of the workload exactly (the helper
+		// pads fdatasync/close so that these ordinals are out of reach of other threads). Calls on other threads
+		// (batch sync timer): thread identity changes between runs, so every ordinal up to the number of such
+		// calls is tried and the hit is measured; unhit instances get extra rounds below.
 		var pts []point
+		otherSum := map[string]int{}
 		for _, sc := range crashSyscalls {
-			ks := map[int]bool{}
-			for k := pre[sc] + 1; k <= total[sc]; k++ {
-				ks[k] = true
-			}
-			mx := 0
-			sum := 0
 			for _, c := range other[sc] {
-				mx = max(mx, c)
-				sum += c
+				otherSum[sc] += c
 			}
-			// calls on other threads (batch sync timer): thread identity changes between runs, so every
-			// ordinal up to the total number seen on other threads is tried
-			if sum > 0 {
-				for k := 1; k <= sum; k++ {
-					ks[k] = true
-				}
+			for k := 1; k <= otherSum[sc] && k <= pre[sc]; k++ {
+				pts = append(pts, point{sc, k})
 			}
-			_ = mx
-			var kk []int
-			for k := range ks {
-				kk = append(kk, k)
-			}
-			sort.Ints(kk)
-			for _, k := range kk {
+			for k := pre[sc] + 1; k <= total[sc]; k++ {
 				pts = append(pts, point{sc, k})
 			}
 		}
 
 		// ---- crash runs
-		outs := make([]outcome, len(pts))
-		var wg sync.WaitGroup
-		sem := make(chan struct{}, workers())
-		for n := range pts {
-			wg.Add(1)
-			sem <- struct{}{}
-			go func() {
-				defer wg.Done()
-				defer func() { <-sem }()
-				outs[n] = crashRun(w, objs, pts[n], instPos, firstWrite, lastLink)
-			}()
+		skipped := 0
+		runPts := func(pts []point) []outcome {
+			// deterministic pseudo-random order, so that a budget cut leaves a spread-out sample, not a prefix
+			pts = append([]point(nil), pts...)
+			x := order | 1
+			for i := len(pts) - 1; i > 0; i-- {
+				x ^= x << 13
+				x ^= x >> 7
+				x ^= x << 17
+				j := int(x % uint64(i+1))
+				pts[i], pts[j] = pts[j], pts[i]
+			}
+			outs := make([]outcome, 0, len(pts))
+			nw := workers()
+			for at := 0; at < len(pts); at += nw {
+				if at >= 2*nw && budget.Exceeded() {
+					skipped += len(pts) - at
+					break
+				}
+				chunk := pts[at:min(at+nw, len(pts))]
+				res := make([]outcome, len(chunk))
+				var wg sync.WaitGroup
+				for n := range chunk {
+					wg.Add(1)
+					go func() {
+						defer wg.Done()
+						res[n] = crashRun(w, objs, chunk[n], instPos, firstWrite, lastLink)
+					}()
+				}
+				wg.Wait()
+				outs = append(outs, res...)
+			}
+			return outs
 		}
-		wg.Wait()
+		outs := runPts(pts)
+		// extra rounds for instances on timer threads that were not hit (which thread runs a timer differs per run)
+		for round := 0; round < 2; round++ {
+			got := map[instance]bool{}
+			for _, o := range outs {
+				if o.hit != nil {
+					got[*o.hit] = true
+				}
+			}
+			missing := map[string]bool{}
+			for _, in := range insts {
+				if !got[in] {
+					missing[in.syscall] = true
+				}
+			}
+			var again []point
+			for sc := range missing {
+				for k := 1; k <= otherSum[sc] && k <= pre[sc]; k++ {
+					again = append(again, point{sc, k})
+				}
+			}
+			if len(again) == 0 || budget.Exceeded() {
+				break
+			}
+			sort.Slice(again, func(a, b int) bool {
+				if again[a].syscall != again[b].syscall {
+					return again[a].syscall < again[b].syscall
+				}
+				return again[a].when < again[b].when
+			})
+			outs = append(outs, runPts(again)...)
+		}
 
 		hit := map[instance]bool{}
 		var firstViol *outcome
@@ -362,10 +413,17 @@ func TestC12CrashPoints(t *testing.T) {
 			} else {
 				labels = append(labels, "writer-linux")
 			}
-			rec.Case(o.inWindow, fmt.Sprintf("%s|%s|%d", desc, o.pt.syscall, o.pt.when), labels...)
+			fpr := fmt.Sprintf("%s|%s|%d", desc, o.pt.syscall, o.pt.when)
+			if o.hit != nil {
+				fpr = fmt.Sprintf("%s|hit %s#%d", desc, o.hit.syscall, o.hit.ord)
+			}
+			rec.Case(o.inWindow, fpr, labels...)
 			if o.err != nil && firstViol == nil {
 				firstViol = o
 			}
+		}
+		if skipped > 0 {
+			rec.LabelN("crash-points-skipped-time-budget", int64(skipped))
 		}
 		totalInst += len(insts)
 		totalHit += len(hit)
